@@ -221,6 +221,15 @@ pub fn c15(a: &Args) -> Ctx {
                 }
             }
         }
+        if class == 3 && !h.keys.is_empty() {
+            // the newest record of each file is freed again and leaves a free slot of the smallest "large" size at the
+            // very end of the file (a state of its own for whatever looks at the tail of a file when it is opened)
+            let k = h.keys.len() - 1;
+            let l = *rng.pick(&[1000u32, 1005, 990, 1013]);
+            h.ops.push(Op::Del(k));
+            h.ops.push(Op::Put(k, ValSpec { len: l, seed: 3, kind: 0 }));
+            h.ops.push(Op::Del(k));
+        }
         ctx.evaluations += 1;
         ctx.count(&format!("tables.{}", table_class(cfg.buckets.expected_n())), 1);
         let mut r2 = rng.fork();
@@ -369,6 +378,19 @@ pub fn c18(a: &Args) -> Ctx {
                 *c = cfg;
             }
         }
+        // half of the bulk_delete batches list one of their keys twice (what the call returns for the repeated key is not
+        // judged here; both runs then go through the tolerant child process)
+        let mut has_dups = false;
+        for o in ha.ops.iter_mut() {
+            if let Op::BulkDel(ks) | Op::BulkDelStr(ks) = o {
+                if ks.len() >= 2 && rng.chance(1, 2) {
+                    let d = ks[rng.below(ks.len() as u64) as usize];
+                    let at = rng.below(ks.len() as u64 + 1) as usize;
+                    ks.insert(at, d);
+                    has_dups = true;
+                }
+            }
+        }
         let mut hb = ha.clone();
         hb.origin = format!("c18 run B (spliced) shard={} i={i}", a.shard);
         let mut spliced = Vec::with_capacity(ha.ops.len() * 2);
@@ -392,13 +414,38 @@ pub fn c18(a: &Args) -> Ctx {
         hb.ops = spliced;
         let dir_a = a.scratch.join("c18a");
         let dir_b = a.scratch.join("c18b_other_dir");
-        let res = run_history_kt(kt, &dir_a, &ha, &Mon::default(), &mut ctx);
         ctx.evaluations += 1;
-        ctx.count("calls_executed", res.calls as u64);
         ctx.count("spliced_read_only_calls", n_spliced);
-        if let Some(st) = res.stop {
-            ctx.record_stop(st, Some(&ha));
-            continue;
+        if has_dups {
+            let hpa = a.scratch.join("c18_a.replay");
+            let _ = std::fs::write(&hpa, ha.to_text("C18", None, ""));
+            let _ = std::fs::remove_dir_all(&dir_a);
+            let out = std::process::Command::new(&exe).args(["c18-child", "--history", &hpa.to_string_lossy(), "--dir", &dir_a.to_string_lossy(), "--scratch", &a.scratch.join("c18ca").to_string_lossy()]).output();
+            ctx.count("pairs_with_repeated_keys_in_bulk_delete", 1);
+            ctx.count("calls_executed", ha.ops.len() as u64);
+            match out {
+                Ok(o) if o.status.code() == Some(0) || o.status.code() == Some(4) => {}
+                Ok(o) if o.status.code() == Some(3) => {
+                    let st = ctx.classify(finding(&["C01"], "child_call_failed", 0, String::from_utf8_lossy(&o.stdout).to_string()));
+                    ctx.record_stop(st, Some(&ha));
+                    continue;
+                }
+                Ok(o) => {
+                    ctx.inconclusive.push(format!("c18 child (run A) ended with {:?}: {}", o.status, String::from_utf8_lossy(&o.stderr)));
+                    continue;
+                }
+                Err(e) => {
+                    ctx.inconclusive.push(format!("spawn: {e}"));
+                    continue;
+                }
+            }
+        } else {
+            let res = run_history_kt(kt, &dir_a, &ha, &Mon::default(), &mut ctx);
+            ctx.count("calls_executed", res.calls as u64);
+            if let Some(st) = res.stop {
+                ctx.record_stop(st, Some(&ha));
+                continue;
+            }
         }
         let hpath = a.scratch.join("c18_b.replay");
         let _ = std::fs::write(&hpath, hb.to_text("C18", None, ""));
@@ -456,7 +503,8 @@ pub fn c18(a: &Args) -> Ctx {
             ctx.record_stop(st, Some(&hb));
             break;
         }
-        if let Some(note) = wrong_read_note {
+        // (with a repeated key in a bulk_delete batch the harness has no expectation for what the call returns)
+        if let Some(note) = wrong_read_note.filter(|_| !has_dups) {
             // same files, yet a read answered wrongly: not a matter of determinism
             let st = ctx.classify(finding(&["C01"], "wrong_read_in_second_run", 0, note));
             ctx.record_stop(st, Some(&hb));
